@@ -181,3 +181,39 @@ Proof.
     clear. induction (filter (fun x0 => negb (oo_change x0)) (o_outs o)); simpl; auto. }
   rewrite (Hz H) in Hv. simpl in Hv. lia.
 Qed.
+
+(* ---------------------------------------------------------------------------------------------- *)
+(* EstimateFeeRate (no explicit feerate: CheckFeeRate is not run at all) *)
+
+(* "The replacement tx will be at least as large as the original tx, so the total fee will be greater (Rule 3)" - the
+   comment in EstimateFeeRate, made precise: IF the replacement is at least as large as the original, paying the estimated
+   feerate on its size covers the old fee plus the incremental relay fee for its size (BIP125 rules 3 and 4). *)
+Lemma estimate_rate_suffices e incr old osz rq0 S' :
+  0 <= old -> 0 < osz <= S' -> 0 <= incr ->
+  old + get_fee incr S' <= get_fee (estimate_rate e incr old osz rq0) S'.
+Proof.
+  intros Ho Hs Hi. unfold estimate_rate.
+  set (q := old * 1000 / osz).
+  assert (Hq : q * osz <= old * 1000 < (q + 1) * osz).
+  { unfold q. pose proof (Z.div_mod (old * 1000) osz ltac:(lia)) as D. pose proof (Z.mod_pos_bound (old * 1000) osz ltac:(lia)). nia. }
+  assert (Hq0 : 0 <= q) by (unfold q; apply Z.div_pos; lia).
+  set (R := Z.max (q + 1 + Z.max incr WALLET_INCREMENTAL_RELAY_FEE) (effective_rate e rq0)).
+  assert (HR : q + 1 + incr <= R) by (unfold R; lia).
+  pose proof (get_fee_ceil R S') as C1. pose proof (get_fee_ceil incr S') as C2.
+  assert (H1 : (q + 1) * osz <= (q + 1) * S') by nia.
+  assert (H2 : (q + 1 + incr) * S' <= R * S') by nia.
+  nia.
+Qed.
+
+(* With the `outputs` option the replacement can be SMALLER than the original, and then the estimated feerate does not even
+   cover the old fee.  Witness = a replacement the real wallet produced (original 219 vB paying 2200; outputs reduced to
+   two; replacement 143 vB maximum signed size at the estimated 15046 sat/kvB pays 2152 < 2200; rejected by the mempool). *)
+Lemma estimate_rate_not_sufficient_refuted :
+  exists e incr old osz rq0 S',
+    0 <= old /\ 0 < S' < osz /\ 0 <= incr /\
+    get_fee (estimate_rate e incr old osz rq0) S' < old.
+Proof.
+  exists (mkEnv 100 3000 0 1000 0 3000 10000000 true [] 58), 100, 2200, 219,
+         (mkReq [] [] true false 0 9999999 None false None), 143.
+  vm_compute. repeat split; congruence.
+Qed.
